@@ -935,6 +935,10 @@ func (p *queryPlan) projectAndGroupBy() error {
 			Msgs: []string{"Starting group reduce and projection"},
 		}
 	})
+	if p.tbl.NumRows() == 0 {
+		// No solutions, hence no groups: the result is the empty table.
+		return nil
+	}
 	// The table needs to be group reduced.
 	// Project only binding involved in the group operation.
 	tmpBindings := []string{}
@@ -1007,8 +1011,7 @@ func (p *queryPlan) projectAndGroupBy() error {
 			Msgs: []string{"Reducing the table using configuration " + cfg.String()},
 		}
 	})
-	p.tbl.Reduce(cfg, aaps)
-	return nil
+	return p.tbl.Reduce(cfg, aaps)
 }
 
 // orderBy takes the resulting table and sorts its contents according to the
